@@ -389,6 +389,52 @@ def replay_open_relabel(gridname):
     return {"violates": bool(failing), "failing": failing}
 
 
+def replay_segment_relabel(op):
+    """Test space = P1 on one segment with default options (elements of the support mix dof slots and slots without dof), trial space = P1 on the whole grid: rotating the
+    local vertex order of the elements and renumbering must give the same matrix after matching the dofs through their vertices (1e-4: singular quadrature frames move)."""
+    import itertools
+    import bempp_cl.api as api
+
+    warnings.simplefilter("ignore")
+    g = Z.grid_with_domains("octa").refine()
+    v, e, di = np.asarray(g.vertices), np.asarray(g.elements), np.asarray(g.domain_indices)
+    par = Z.params(4, 6)
+
+    def dof_vertices(sp, grid):
+        return [tuple(np.round(grid.vertices[:, {int(grid.elements[i, E]) for E, i in sp.global2local[d]}.pop()], 9)) for d in range(sp.global_dof_count)]
+
+    def build(grid):
+        test = api.function_space(grid, "P", 1, segments=[1])
+        trial = api.function_space(grid, "P", 1)
+        return Z.dense(Z.boundary_operator(op, trial, trial, test, par)), dof_vertices(test, grid), dof_vertices(trial, grid)
+
+    A, ta, ra = build(g)
+    failing = []
+    rng = np.random.RandomState(6)
+    for pattern, (ra_, rb_) in enumerate(((1, 0), (2, 1), (1, 2))):
+        pe = rng.permutation(e.shape[1]) if pattern == 1 else np.arange(e.shape[1])
+        el = np.array([np.roll(e[:, j], (ra_ * j + rb_) % 3) for j in range(e.shape[1])]).T[:, pe]
+        g2 = SG.make_grid(v, el, di[pe])
+        B, tb, rb2 = build(g2)
+        if sorted(ta) != sorted(tb) or sorted(ra) != sorted(rb2):
+            failing.append("rotation pattern %d: different dof vertices" % pattern)
+            continue
+        Bp = B[np.ix_([tb.index(x) for x in ta], [rb2.index(x) for x in ra])]
+        err = Z.relerr(Bp, A)
+        if err > 1e-4:
+            failing.append("rotation pattern (%d j + %d) mod 3%s: relative change %.2e" % (ra_, rb_, " + element renumbering" if pattern == 1 else "", err))
+    return {"violates": bool(failing), "failing": failing}
+
+
+def ob_segment_relabel(op):
+    """bounded: see replay_segment_relabel"""
+    r = replay_segment_relabel(op)
+    if r["violates"]:
+        return violated("%s with a segment P1 test space is not invariant under local rotation / renumbering: %s" % (op, r["failing"][:2]), witness={"op": op, "failing": r["failing"]},
+                        signature="segment-relabel/%s" % op, replay={"callable": "checks.c03:replay_segment_relabel", "kwargs": {"op": op}, "confirmed": True, "result": r})
+    return held("3 rotation patterns, matrices agree to 1e-4 after matching dofs through vertices")
+
+
 def _fringe_screen():
     """3 x 2 screen with a sawtooth fringe: extra triangles on the upper rim whose two free sides are both on the boundary, neighbouring ears meeting in rim vertices"""
     v, e = SG.screen(3)
@@ -581,6 +627,8 @@ def main():
     run.add("space._process_segments", "bounded", ob_process_segments)
     for gname in ("screen2", "fringe") + (("screen3",) if thorough else ()):
         run.add("matrix.relabel.open-grid.P1[%s]" % gname, "bounded", ob_open_relabel, gname)
+    for op in ("modified_hyp", "laplace_hyp") + (("helmholtz_hyp", "laplace_double") if thorough else ()):
+        run.add("matrix.relabel.segment-P1-test-space.%s[octa refined]" % op, "bounded", ob_segment_relabel, op)
     for kind in (("DUAL", 0), ("DUAL", 1), ("BC", 0), ("RBC", 0)):
         for rot in ((0, 1, 2) if thorough or kind == ("DUAL", 0) else (1,)):
             run.add("matrix.relabel.barycentric[%s%d rot=%d]" % (kind[0], kind[1], rot), "bounded", ob_bary_relabel, kind, rot)
